@@ -80,6 +80,11 @@ func project(seed *models.Item) []pnode {
 
 // NewRun prepares a run in scratch directory dir (the process chdirs there: JobPath is relative).
 func NewRun(dir, tracePath string, nhosts int, mutate func(c *config.Config)) (*Run, error) {
+	return NewRunAt(dir, tracePath, nhosts, nil, mutate)
+}
+
+// NewRunAt is NewRun with fixed origin addresses (nil: pick free ports).
+func NewRunAt(dir, tracePath string, nhosts int, addrs []string, mutate func(c *config.Config)) (*Run, error) {
 	if err := os.MkdirAll(dir, 0755); err != nil {
 		return nil, err
 	}
@@ -93,13 +98,18 @@ func NewRun(dir, tracePath string, nhosts int, mutate func(c *config.Config)) (*
 	tr.Sync = true
 	tr.Stamp = true
 	r := &Run{tr: tr, dir: dir, fin: map[string]int{}}
-	r.org, err = origin.New(nhosts, func(ev map[string]any) {
+	emit := func(ev map[string]any) {
 		r.touch()
 		if r.annotate != nil {
 			r.annotate(ev)
 		}
 		tr.Emit(ev)
-	})
+	}
+	if addrs == nil {
+		r.org, err = origin.New(nhosts, emit)
+	} else {
+		r.org, err = origin.NewAt(addrs, emit)
+	}
 	if err != nil {
 		return nil, err
 	}
@@ -207,6 +217,8 @@ func (r *Run) hook(point string, a ...any) {
 		r.tr.Emit(map[string]any{"ev": point, "urls": vals})
 	case "lq.sender.take", "lq.buffer.put", "lq.stop.reset":
 		r.tr.Emit(map[string]any{"ev": point, "id": a[0]})
+	case "seencheck.get":
+		r.tr.Emit(map[string]any{"ev": point, "u": a[0], "type": a[1], "found": a[2], "as": a[3]})
 	case "stop.step":
 		r.tr.Emit(map[string]any{"ev": point, "step": a[0]})
 	case "pre.start", "pre.exit", "arch.start", "arch.exit", "post.start", "post.exit", "fin.start", "fin.exit",
